@@ -220,6 +220,138 @@ def case_rotated(log, nfs, qed, g):
 
 
 # ---------------------------------------------------------------------------
+# runner plumbing: the real runner.parts.evolve / runner.parts.match hand the QED flag of the theory card to BOTH the
+# evolution-basis map and the blow-up (a map built for QCD labels blown up with the unified basis, or the reverse, is a
+# different operator).  Operator / OperatorMatrixElement are replaced in the namespace of runner.parts by a stand-in
+# whose compute() yields the symbolic members; everything after compute() is the real code.
+# ---------------------------------------------------------------------------
+def _parts_env(member_factory):
+    """patch the namespace of eko.runner.parts; returns (parts, restore)"""
+    import importlib, types
+
+    parts = importlib.import_module("eko.runner.parts")
+    saved = {k: getattr(parts, k) for k in ("evop", "ome", "_managers", "_evolve_configs", "_matching_configs", "Operator")}
+
+    class _Evo:
+        def __init__(self, config, managers, segment, is_threshold=False):
+            self.nf, self.q2_to = segment.nf, segment.target
+
+        def compute(self):
+            self.op_members = member_factory()
+
+    class _Ome:
+        def __init__(self, config, managers, nf, q2, is_backward, L, is_msbar):
+            self.nf, self.q2 = nf, q2
+
+        def compute(self):
+            self.op_members = member_factory()
+
+    parts.evop = types.SimpleNamespace(Operator=_Evo, Managers=saved["evop"].Managers)
+    parts.ome = types.SimpleNamespace(OperatorMatrixElement=_Ome)
+    parts._managers = lambda eko: None
+    parts._evolve_configs = lambda eko: {}
+    parts._matching_configs = lambda eko: {}
+    parts.Operator = lambda res, err: (res, err)
+
+    def restore():
+        for k, v in saved.items():
+            setattr(parts, k, v)
+
+    return parts, restore
+
+
+def _parts_call(parts, kind, nf, qed_order):
+    """kind 'evolve': segment with nf flavours; kind 'match': threshold of quark nf+1 (nf flavours below)"""
+    import types
+    from eko.io.items import Evolution, Matching
+    from eko.quantities.heavy_quarks import QuarkMassScheme
+
+    heavy = types.SimpleNamespace(squared_ratios=[1.0, 1.0, 1.0], masses_scheme=QuarkMassScheme.POLE)
+    eko_ = types.SimpleNamespace(theory_card=types.SimpleNamespace(order=(2, qed_order), heavy=heavy), operator_card=None)
+    if kind == "evolve":
+        return parts.evolve(eko_, Evolution(origin=10.0, target=20.0, nf=nf, cliff=False))
+    return parts.match(eko_, Matching(scale=10.0, hq=nf + 1, inverse=False))
+
+
+def case_parts(log, g):
+    mods = O.modules()
+    member, physical, matching, fl = mods
+    import importlib
+
+    parts_mod = importlib.import_module("eko.runner.parts")
+    log.encode(parts_mod.evolve, parts_mod.match, physical.PhysicalOperator.ad_to_evol_map, matching.MatchingCondition.split_ad_to_evol_map,
+               member.OperatorBase.to_flavor_basis_tensor)
+    log.assume("runner.parts: Operator / OperatorMatrixElement replaced by a stand-in whose compute() yields symbolic members; "
+               "_managers, _evolve_configs, _matching_configs stubbed (C55 decides them)")
+    for kind, nfs in (("evolve", (3, 4, 5, 6)), ("match", (3, 4, 5))):
+        for nf in nfs:
+            for qed_order in (0, 1, 2):
+                qed = qed_order > 0
+                kw = {"kind": kind, "nf": nf, "qed_order": qed_order, "g": g}
+                tag = "runner.parts.%s (nf=%d, order=(2,%d), grid %d)" % (kind, nf, qed_order, g)
+                key = "runner.parts.%s[%s]:qed-flag" % (kind, _tag(qed))
+
+                def run(kind=kind, nf=nf, qed_order=qed_order, qed=qed, kw=kw, tag=tag, key=key):
+                    holder = []
+
+                    def factory():
+                        holder.append(O.SymMembers(member, g))
+                        return holder[-1]
+
+                    parts, restore = _parts_env(factory)
+                    try:
+                        val, _err = _parts_call(parts, kind, nf, qed_order)
+                    except (SymbolicEscape, EngineError):
+                        raise
+                    except Exception as e:  # noqa
+                        v = failed("%s returns a tensor: raised %s: %s" % (tag, type(e).__name__, e))
+                        decide_once(log, v, key=key + ":raises", replay=(MOD, "replay_parts", kw), sampler=_sampler_any)
+                        return
+                    finally:
+                        restore()
+                    members = holder[-1]
+                    box(members.symbols())
+                    blocks = O.blocks_of("physical" if kind == "evolve" else "matching", nf, qed)
+                    want = O.oracle_tensor(blocks, nf, nf, qed, g, lambda k, a, b: members[k].value[a, b])
+                    for o in range(O.NPID):
+                        v = prove_small(O.residuals(val, want, g, o), "%s: tensor[%s] == (R^+ . blockdiag(members) . R)[%s] in the basis selected by the card's QED order, for all member matrices"
+                                        % (tag, M.NAMES[o], M.NAMES[o]))
+                        decide_once(log, v, key=key, replay=(MOD, "replay_parts", dict(kw, o=o)), sampler=_sampler_any)
+                    log.twin("domain")
+
+                _r, pm = explore(run)
+                log.path_stats(pm)
+
+
+def replay_parts(point, kind, nf, qed_order, g, o=None):
+    """the real runner.parts.evolve / match on float members (same stand-in for the quadrature objects)"""
+    qed = qed_order > 0
+    blocks = O.blocks_of("physical" if kind == "evolve" else "matching", nf, qed)
+    holder = []
+
+    def run_with(pt):
+        def factory():
+            holder.append(O.FloatMembers(pt, g))
+            return holder[-1]
+
+        parts, restore = _parts_env(factory)
+        try:
+            return _parts_call(parts, kind, nf, qed_order)
+        finally:
+            restore()
+
+    try:
+        run_with({})
+        keys = set(holder[-1]) | {k for k in blocks.values() if k != "id"}
+        pt = _point_from(point, {O.mname(k, i, j) for k in keys for i in range(g) for j in range(g)})
+        got, _ = run_with(pt)
+    except Exception as e:  # noqa
+        return {"detail": "runner.parts.%s (nf=%d, order=(2,%d), grid %d) raises %s: %s" % (kind, nf, qed_order, g, type(e).__name__, e)}
+    want = O.oracle_float(blocks, nf, nf, qed, g, O.FloatMembers(pt, g))
+    return _cmp(got, want, "runner.parts.%s (nf=%d, theory order (2,%d), grid %d)" % (kind, nf, qed_order, g), None)
+
+
+# ---------------------------------------------------------------------------
 # replays: real unpatched code on float members against the reference built by exact linear algebra
 # ---------------------------------------------------------------------------
 def _cmp(got, want, what, o=None):
@@ -303,6 +435,7 @@ def main():
                   "grid size 1 and 2 (thorough: 3); every member entry a real symbol in [-1,1] (the tensor is linear in the members; the code is uniform in the grid index)",
                   "label sets with nf_in != nf_out: forward (rotate_matching(nf+1) @ matching(nf)) and inverse (matching(nf) @ rotate_matching_inverse(nf+1)) rotated matching "
                   "operators built by the real OperatorBase.__matmul__, crossings 4, 5, 6, QCD and QED, grid 2 (thorough: also 1)",
+                  "runner.parts.evolve (nf 3..6) and runner.parts.match (thresholds 4..6) with theory QED order 0, 1, 2: the real functions after compute(), grid 1 (thorough: 2)",
                   "thorough: all label pairs T.I over the intrinsic bases for all (nf_in, nf_out) in {3..6}^2, grid size 1",
                   "float weights (1/6, 1/10, ...) read as exact rationals; equality within 1e-12"]
     chk.out_of_claim = ["the error tensor (propagated with the same signed weights; no reference semantics documented)", "rounding beyond 1e-12",
@@ -318,6 +451,9 @@ def main():
         chk.case("rotated.%s.nf3-5.g2" % _tag(qed), case_rotated, nfs=(3, 4, 5), qed=qed, g=2)
         if deep:
             chk.case("rotated.%s.nf3-5.g1" % _tag(qed), case_rotated, nfs=(3, 4, 5), qed=qed, g=1)
+    chk.case("runner.parts.g1", case_parts, g=1)
+    if deep:
+        chk.case("runner.parts.g2", case_parts, g=2)
     if deep:
         for qed in (False, True):
             for a in (3, 4, 5, 6):
